@@ -201,6 +201,10 @@ func (e *Engine) inline(st *State, caller *Frame, site *ssa.Call, fn *ssa.Functi
 		e.Check(st, caller, site.Pos(), "R-depth", "recursive call of "+fn.Name(), false, "unbounded recursion: "+fn.Name()+" is re-entered while already active twice (chain … "+strings.Join(chain, " ← ")+")")
 		return []Result{{st: st, ret: e.freshOfType(st, site.Type(), "recursion")}}
 	}
+	if e.Cfg.MaxLP > 0 && e.LP.Calls > e.Cfg.MaxLP {
+		e.Check(st, caller, site.Pos(), "R-depth", "solver budget at call of "+fn.Name(), false, "the analysis budget (number of entailment queries) is exhausted: call structure too deep or recursive — undecided")
+		return []Result{{st: st, ret: e.freshOfType(st, site.Type(), "budget")}}
+	}
 	if e.Inlined > e.Cfg.MaxInline && e.Cfg.MaxInline > 0 {
 		e.Check(st, caller, site.Pos(), "R-depth", "inlining budget at call of "+fn.Name(), false, "the analysis budget (number of inlined calls) is exhausted: call structure too deep or recursive")
 		return []Result{{st: st, ret: e.freshOfType(st, site.Type(), "budget")}}
@@ -253,14 +257,14 @@ func (e *Engine) model(st *State, fr *Frame, x *ssa.Call, callee *ssa.Function, 
 			st.addLT(V(r), strLen(h))
 			if h.Const == nil && name == "strings.IndexByte" {
 				if c, okc := constOf(args[1]); okc {
-					st.hits[r] = searchHit{h: h, c: int(c), mask: maskOf(int(c) & 0xff), org: x}
+					e.addHit(st, fr, x, r, searchHit{h: h, c: int(c), mask: maskOf(int(c) & 0xff), org: x})
 				} else if bv, okb := args[1].(ByteV); okb {
-					st.hits[r] = searchHit{h: h, c: -1, mask: func() Mask {
+					e.addHit(st, fr, x, r, searchHit{h: h, c: -1, mask: func() Mask {
 						if bv.Tab != nil {
 							return fullMask()
 						}
 						return e.mask(st, bv)
-					}(), org: x}
+					}(), org: x})
 				}
 			}
 		} else if h, ok := args[0].(SliceV); ok {
@@ -276,7 +280,7 @@ func (e *Engine) model(st *State, fr *Frame, x *ssa.Call, callee *ssa.Function, 
 			st.addLE(V(r), strLen(h).Sub(strLen(n)))
 			st.addLE(V(r), strLen(h))
 			if h.Const == nil && name == "strings.Index" {
-				st.hits[r] = searchHit{h: h, c: -1, mask: fullMask(), nlen: strLen(n), org: x}
+				e.addHit(st, fr, x, r, searchHit{h: h, c: -1, mask: fullMask(), nlen: strLen(n), org: x})
 			}
 			if n.Const == nil && h.Const == nil && n.Root == h.Root && e.proveLE(st, h.Lo, n.Lo) && e.proveLE(st, n.Hi, h.Hi) {
 				// needle is a substring of the haystack itself: always found, at or before its own offset
